@@ -318,6 +318,19 @@ impl embedded_io_async::Write for ScriptIo {
                     s.cancel = true;
                     Poll::Pending
                 }
+                4 | 5 => {
+                    // a SLOW write: `amt` ms of virtual time pass inside the call, then one byte (4) resp. the whole
+                    // buffer (5) is accepted
+                    let t = now_ms() + amt;
+                    set_now_ms(t);
+                    s.log.push(format!("t {}", t));
+                    let n = if k == 4 { 1 } else { len };
+                    let mut l = format!("w {} {} ", len, n);
+                    hex(&mut l, &buf[..n]);
+                    s.log.push(l);
+                    s.broker_feed(&buf[..n]);
+                    Poll::Ready(Ok(n))
+                }
                 _ => {
                     let n = (amt.max(1) as usize).min(len);
                     let mut l = format!("w {} {} ", len, n);
